@@ -134,6 +134,9 @@ func totalSize(cs []*filer_pb.FileChunk) (t int64) {
 type Outcome struct {
 	Err     string   // "" = success; otherwise the error (gRPC error or resp.Error)
 	Wrote   []string // for write events: the chunk list the client sent
+	// WroteMode: for updates, the file mode the client sent (valid when HasMode).
+	WroteMode uint32
+	HasMode   bool
 	Skipped bool     // the client could not form the request (e.g. update of a missing entry)
 }
 
@@ -195,7 +198,7 @@ func (w *World) Apply(ev Event, step int, linkNext int) Outcome {
 		}
 		wrote := chunkStrs(cur.Chunks)
 		_, err := w.FS.UpdateEntry(ctx, &filer_pb.UpdateEntryRequest{Directory: dir, Entry: cur})
-		return Outcome{Err: errOf(err, ""), Wrote: wrote}
+		return Outcome{Err: errOf(err, ""), Wrote: wrote, WroteMode: cur.Attributes.FileMode, HasMode: true}
 	case "append":
 		c := freshChunk(step, 0, 0)
 		_, err := w.FS.AppendToEntry(ctx, &filer_pb.AppendToEntryRequest{Directory: dir, EntryName: name, Chunks: []*filer_pb.FileChunk{c}})
